@@ -784,6 +784,15 @@ def check_ticket(case):
         # suite is on offer
         ckw["cipherNames"] = ["aes256gcm"]
         ckw["minVersion"] = ckw["maxVersion"] = (3, 4)
+    elif var == "hash_xpsk":
+        # ... and an external PSK (of that hash) follows the unusable ticket
+        # in the same ClientHello: the connection is authenticated by the
+        # external PSK alone
+        ckw["cipherNames"] = ["aes256gcm"]
+        ckw["minVersion"] = ckw["maxVersion"] = (3, 4)
+        psk = [(bytearray(b"xpsk-id"), bytearray(b"\x05" * 32), "sha384")]
+        ckw["pskConfigs"] = psk
+        skw["pskConfigs"] = psk
     elif var == "expired":
         skw["ticketLifetime"] = 3600
         DET.advance(7200)
@@ -988,6 +997,7 @@ def explicit(tier, seed):
             yield {"k": "ticket", "var": var, "v1": v1}
             if var in ("expired", "other_key"):
                 yield {"k": "ticket", "var": var, "v1": v1, "pin": True}
+    yield {"k": "ticket", "var": "hash_xpsk", "v1": "tls13"}
 
 
 @st.composite
